@@ -386,6 +386,41 @@ def modcount_ref(start, modulo, step, n):
   return out
 
 
+def strat_modlong(tier):
+  return st.fixed_dictionaries(dict(
+    ratio=st.sampled_from([1025, 1100, 1500, 2049, 4097, 700]), modulo=st.sampled_from([Q(7), Q(2), Q(13, 3), 4.0]),
+    start=qval(), start_kind=st.sampled_from(["number", "stream", "stream", "varying stream"]),
+    extra=st.integers(3, 400), jitter=st.integers(0, 5)))
+
+
+def run_modlong(case):
+  modulo = case["modulo"]
+  ratio = case["ratio"]
+  step = modulo / ratio if not isinstance(modulo, float) else Q(modulo) / ratio
+  step = step + Q(case["jitter"], 10 ** 6)      # not an exact divisor: wraps at changing offsets
+  n = int(ratio * 1.3) + case["extra"]
+  kind = case["start_kind"]
+  s0 = case["start"]
+  if kind == "number":
+    starts = lambda i: fr(s0)
+    arg = s0
+  elif kind == "stream":
+    starts = lambda i: fr(s0)
+    arg = Stream([s0] * n)
+  else:
+    starts = lambda i: fr(s0) + (i // 300)
+    arg = Stream([s0 + (i // 300) for i in range(n)])
+  got = take(modulo_counter(arg, modulo, step), n)
+  exp = modcount_ref(starts, lambda i: fr(modulo), lambda i: fr(step), n)
+  if len(got) != n:
+    raise Violation("modulo_counter gave %d samples, %d asked" % (len(got), n))
+  for i, (g, e) in enumerate(zip(got, exp)):
+    if fr(g) != e:
+      raise Violation("modulo_counter(start %s %r, modulo=%r, step=%r) sample %d is %r, the recursion gives %r"
+                      % (kind, s0, modulo, step, i, g, e))
+  return {"nontrivial": True, "labels": ["start:" + kind, "ratio>1024" if ratio > 1024 else "ratio<=1024"]}
+
+
 def _mval(nt, positive=False):
   if nt == "q":
     if positive:
@@ -580,6 +615,30 @@ def run_table(case):
     pos = [(cl * fr(phase) + k * cl * fr(freq)) % L for k in range(n)]
     what = "TableLookup(%r, cycles=%d)(freq=%r, phase=%r)" % (tbl, cycles, freq, phase)
     cmp_seq(got, [interp(tbl, p) for p in pos], True, 0, what)
+    # tables derived from this one (operators, normalize) are oscillators of their own table with
+    # the same number of cycles: played the same way they give the derived table's interpolation
+    m = max(tbl, key=lambda v: abs(fr(v)))
+    variants = [("t * 2", lambda: t * 2, [2 * fr(v) for v in tbl]),
+                ("-t", lambda: -t, [-fr(v) for v in tbl]),
+                ("t + t", lambda: t + t, [2 * fr(v) for v in tbl]),
+                ("3 - t", lambda: 3 - t, [3 - fr(v) for v in tbl])]
+    if fr(m) != 0:
+      # normalize() divides by a plain number (the operators accept int / float / complex scalars):
+      # checked on the float spelling of the table - same cycle count, values v / (largest |v|)
+      tf = TableLookup([float(fr(v)) for v in tbl], cycles=cycles) if cycles != 1 else TableLookup([float(fr(v)) for v in tbl])
+      tn = tf.normalize()
+      if not isinstance(tn, TableLookup) or tn.cycles != cycles or len(tn.table) != L or any(
+          abs(fr(a) - fr(v) / fr(m)) > Fraction(1, 10 ** 12) for a, v in zip(tn.table, tbl)):
+        raise Violation("normalize() of TableLookup(%r, cycles=%d) has table %r, cycles %r"
+                        % (tbl, cycles, getattr(tn, "table", tn), getattr(tn, "cycles", None)))
+    name, mkv, tbl2 = variants[(L + n) % len(variants)]
+    t2 = mkv()
+    if not isinstance(t2, TableLookup) or t2.cycles != cycles or [fr(v) for v in t2.table] != tbl2:
+      raise Violation("%s of TableLookup(%r, cycles=%d) has table %r, cycles %r; expected %r, %d"
+                      % (name, tbl, cycles, getattr(t2, "table", t2), getattr(t2, "cycles", None), tbl2, cycles))
+    s2 = t2(freq) if case["phase"] == "default" else t2(freq, phase)
+    cmp_seq(take(s2, n), [interp(tbl2, p) for p in pos], True, 0, "%s played like %s" % (name, what))
+    labels.append("derived table")
   elif mode == "osc_float":
     freq, phase = case["ffreq"], case["fphase"]
     got = take(t(freq, phase=phase), n)
@@ -849,6 +908,9 @@ CLAUSES = [
          floors={"adsr": .15, "attack": .05, "attack_stream": .05, "exact": .2,
                  "fractional segment": .15},
          doc="adsr / attack: documented durations and piecewise-linear A, D, S, R segments"),
+  Clause("modcount_long", strat_modlong, run_modlong, quick=64, thorough=600,
+         doc="modulo_counter over thousands of samples with modulo/step ratios above 1024 (long batches of the "
+             "fast paths), start as a number and as a stream: still the naive recursion"),
   Clause("modcount", strat_modcount, run_modcount, quick=1600, thorough=24000,
          floors=dict([("branch:" + b, .02) for b in
                       ["NNN", "NNS", "NSN", "NSS", "SNN", "SNS", "SSN", "SSS"]],
